@@ -188,6 +188,9 @@ def cases():
         ('remove_pass', 'pass_then_string_in_class', "class C:\n    pass\n    'not a docstring'\n    x = 1\nprint(C.__doc__, C.x)\n", True),
         ('remove_pass', 'pass_then_string_in_module', "pass\n'not a docstring'\nprint(__doc__)\n", True),
         ('remove_pass', 'pass_then_string_in_async_def', "async def f():\n    pass\n    'not a docstring'\nprint(f.__doc__)\n", True),
+        ('remove_asserts', 'assert_yield_makes_generator', "def g():\n    assert (yield 1)\n    return 2\ntry:\n    print(list(g()))\nexcept TypeError as e:\n    print('TypeError')\n", True),
+        ('remove_debug', 'debug_yield_makes_generator', "def g():\n    if __debug__:\n        yield 1\n    return 2\ntry:\n    print(list(g()))\nexcept TypeError as e:\n    print('TypeError')\n", True),
+        ('remove_debug', 'debug_global_declaration', "counter = 0\ndef bump():\n    if __debug__:\n        global counter\n    counter = 5\n    return counter\nprint(bump(), counter)\n", True),
         ('remove_asserts', 'assert_then_string_in_def', "def f():\n    assert True\n    'not a docstring'\n    return 1\nprint(f.__doc__, f())\n", True),
         ('remove_debug', 'debug_then_string_in_def', "def f():\n    if __debug__:\n        pass\n    'not a docstring'\n    return 1\nprint(f.__doc__, f())\n", True),
         ('remove_debug', 'debug_else_string_in_def', "def f():\n    if __debug__:\n        pass\n    else:\n        'not a docstring'\n    return 1\nprint(f.__doc__, f())\n", True),
@@ -201,6 +204,9 @@ def cases():
         ('remove_builtin_exception_brackets', 'deleted_global', 'ValueError = ValueError\ndef thrower():\n    raise ValueError()\ntry:\n    thrower()\nexcept Exception as caught:\n    print(type(caught).__name__)\n', True),
         ('remove_builtin_exception_brackets', 'class_attr_shadow', 'class Holder:\n    ValueError = KeyError\n    try:\n        raise ValueError()\n    except KeyError:\n        caught = "KeyError"\nprint(Holder.caught)\n', True),
         ('remove_builtin_exception_brackets', 'star_import', 'from os.path import *\ndef thrower():\n    raise ValueError()\ntry:\n    thrower()\nexcept ValueError as caught:\n    print(caught.args)\n', True),
+        ('remove_object_base', 'object_match_capture', 'class Base:\n    marker = "base"\nmatch Base:\n    case object:\n        pass\nclass Derived(object):\n    pass\nprint(Derived.marker)\n', True),
+        ('remove_object_base', 'object_in_handler', 'class Base(Exception):\n    marker = "base"\ntry:\n    raise Base()\nexcept Base as object:\n    class Derived(type(object)):\n        pass\n    class Plain(object.__class__, object.__class__.__mro__[-1]):\n        pass\nprint(Derived.marker, Plain.marker)\n', True),
+        ('remove_object_base', 'object_type_parameter', 'class Holder[object]:\n    bases = (object,)\n    try:\n        class Inner(object):\n            pass\n        result = "created"\n    except TypeError:\n        result = "TypeError"\nprint(Holder.result)\n', True),
         ('remove_object_base', 'object_shadowed', 'class object:\n    marker = "shadow"\nclass Derived(object):\n    pass\nprint(Derived.marker)\n', True),
     ]
     for opt, tag, src, near in specials:
